@@ -16,16 +16,16 @@ def gen(quick: bool) -> str:
     variants = ["lc", "us", "pfx", "lcpfx"]
     counter = [0]
 
-    def cond(tag, n, edge_hi, flags, rt, rflag, with_incR, variant=None):
+    def cond(tag, n, edge_hi, flags, rt, rflag, with_incR, variant=None, noself=False):
         if variant is None:  # quick: the spelling variant cycles over the conditions; thorough: every variant for every condition
             variant = variants[counter[0] % len(variants)]
             counter[0] += 1
         tag = tag + "_" + variant
-        es = [f"e{i}{j}" for i in range(n) for j in range(n)]
+        es = [f"e{i}{j}" for i in range(n) for j in range(n) if not (noself and i == j)]
         rs = [f"r{i}" for i in range(n)] if with_incR else []
         params = ", ".join([f"{e}: int" for e in es] + [f"{r}: bool" for r in rs])
         pre = " and ".join(f"0 <= {e} <= {edge_hi}" for e in es)
-        inc = "[" + ", ".join("[" + ", ".join(f"e{i}{j}" for j in range(n)) + "]" for i in range(n)) + "]"
+        inc = "[" + ", ".join("[" + ", ".join(("0" if noself and i == j else f"e{i}{j}") for j in range(n)) + "]" for i in range(n)) + "]"
         incR = "[" + ", ".join(rs) + "]" if with_incR else "[" + ", ".join(["False"] * n) + "]"
         # every second condition: the flagged templates already carry the flag before the analysis (re-analysis / pre-set flag)
         preset = tuple(bool(f) and (counter[0] % 2 == 0) for f in flags)
@@ -65,7 +65,7 @@ def replay_g_{tag}({", ".join(es + rs)}):
             cond(f"n3t_only{k}_rx", 3, 2, flags, -1, False, False)
         for k in range(4):
             flags = tuple(i == k for i in range(4))
-            cond(f"n4_only{k}_rx", 4, 1, flags, -1, False, False)
+            cond(f"n4_only{k}_rx", 4, 1, flags, -1, False, False, noself=True)
         for k in range(3):
             flags = tuple(i == k for i in range(3))
             for rt in (0, 1, 2, 3):
@@ -90,7 +90,7 @@ def run(rep: C.Report) -> None:
     xh.check_harness(
         rep,
         H,
-        {"^g_": dict(name="Ob1 marked set == closure + redirect rule, analysis terminates", functions=["core.py:Wtp.analyze_templates", "core.py:Wtp.set_template_pre_expand", "core.py:Wtp.get_all_pages"], bounds="n=2 templates: 3^4 inclusion matrices x 2^2 redirect inclusions x all flag sets x all redirect placements; n=3: 2^9 matrices x all flag sets (no redirect)" + ("" if quick else "; n=3: single-flag sets x all redirect placements, 3^9 matrices for single-flag sets; n=4: 2^16 matrices for single-flag sets"))},
+        {"^g_": dict(name="Ob1 marked set == closure + redirect rule, analysis terminates", functions=["core.py:Wtp.analyze_templates", "core.py:Wtp.set_template_pre_expand", "core.py:Wtp.get_all_pages"], bounds="n=2 templates: 3^4 inclusion matrices x 2^2 redirect inclusions x all flag sets x all redirect placements; n=3: 2^9 matrices x all flag sets (no redirect)" + ("" if quick else "; n=3: single-flag sets x all redirect placements, 3^9 matrices for single-flag sets; n=4: 2^12 matrices without self-inclusion for single-flag sets"))},
         timeout=150 if quick else 3600,
         src=src,
         batch=2 if quick else 1,
